@@ -189,6 +189,12 @@ func checkC02(c *Ctx) {
 	c.Rule("C02-R15", "which parsers the collect loop tries depends on the terminal's description and on the scan (nothing pending / expiry) only, never on the modes switched on at the moment; the focus parser, which alone holds back a lone ESC on a terminal without ESC-introduced keys, is tried on every terminal")
 	c.Expect("C02-R15", 6)
 	checkCollectGates(c, p, "C02-R15", nil)
+	c.Rule("C02-R18", "never swallows bytes: what a read returned is queued for the decoder whatever error came with it (the send of chunk[:n] is not decided by the read's error; = C05-R11)")
+	c.Expect("C02-R18", 1)
+	checkReadBytesQueued(c, p, "C02-R18")
+	c.Rule("C02-R19", "the same events in the same order: every send of a decoded event waits for room itself (blocking select, shutdown alternatives only); none is tried without blocking or handed to a goroutine, whose sends race the next scan's (= C05-R1)")
+	c.Expect("C02-R19", 1)
+	c.asRule("C05-R1", "C02-R19", func() { c05Sends(c, p) })
 	c.Rule("C02-R17", "a pending Alt prefix outlives the scan that found it: the flag is a field of the screen, cleared only where it is applied to a key (a scan that ends waiting for more input must not forget it: ESC ESC | [ A is Alt+Up however it is chunked; = C03-R6)")
 	c.Expect("C02-R17", 3)
 	c.asRule("C03-R6", "C02-R17", func() { c03AltPrefix(c, p) })
